@@ -234,7 +234,31 @@ json::Value exprJ(Ctx& X, const Expr* E, int depth = 0) {
   }
   if (auto* co = dyn_cast<ConditionalOperator>(S))
     return json::Object{{"op", "cond"}, {"c", exprJ(X, co->getCond(), depth + 1)}, {"t", exprJ(X, co->getTrueExpr(), depth + 1)}, {"f", exprJ(X, co->getFalseExpr(), depth + 1)}};
-  return json::Object{{"op", "path"}, {"p", pathOf(X, S)}};
+  json::Object po{{"op", "path"}, {"p", pathOf(X, S)}};
+  // std::move(x).member / static_cast<T&&>(x).member: the move sits below a member access - keep the mark on the path
+  {
+    const Expr* cur = S; int guard = 0;
+    while (cur && guard++ < 8) {
+      cur = cur->IgnoreParenImpCasts();
+      if (auto* me = dyn_cast<MemberExpr>(cur)) { cur = me->getBase(); continue; }
+      if (auto* dm = dyn_cast<CXXDependentScopeMemberExpr>(cur)) { if (dm->isImplicitAccess()) break; cur = dm->getBase(); continue; }
+      if (auto* ec = dyn_cast<ExplicitCastExpr>(cur)) {
+        QualType wt = ec->getTypeAsWritten();
+        if (!wt.isNull() && wt->isRValueReferenceType()) { po["fw"] = true; break; }
+        cur = ec->getSubExpr(); continue;
+      }
+      if (auto* c = dyn_cast<CallExpr>(cur)) {
+        std::string n = calleeName(X, c->getCallee());
+        if (isTransparent(n) && c->getNumArgs() >= 1) {
+          if (n.size() >= 4 && n.compare(n.size() - 4, 4, "move") == 0) { po["mv"] = true; break; }
+          if (n.size() >= 7 && n.compare(n.size() - 7, 7, "forward") == 0) { po["fw"] = true; break; }
+          cur = c->getArg(0); continue;
+        }
+      }
+      break;
+    }
+  }
+  return std::move(po);
 }
 
 std::string srcText(Ctx& X, SourceRange R, unsigned maxLen = 160) {
